@@ -233,6 +233,9 @@ func (w *WorkerOut) noteCase(c *Case) {
 		w.HashModes[hm]++
 		w.Kinds[c.Conc.Kind]++
 		w.Knobs[fmt.Sprintf("minlen:%d", c.Conc.MinLen)]++
+		if c.Conc.Family == "cache" {
+			w.Knobs[fmt.Sprintf("mincap_floor:%d", c.Conc.MinCap)]++
+		}
 	}
 	if c.Seq != nil {
 		c.Seq.note(w)
